@@ -65,7 +65,7 @@ type nhSM struct {
 	st      *nhKVState
 	jit     uint32
 	closed  bool
-	durable bool // on-disk flavour
+	durable bool  // on-disk flavour
 	hold    int32 // next Lookup sleeps this many milliseconds
 }
 
